@@ -217,12 +217,15 @@ KINDS = ["digits", "extreme", "negzero", "ulp", "normal"]
 def _cases(tier, seed):
     rng = np.random.default_rng(seed + 606)
     K = 1 if tier == "quick" else 15
-    big = [100000] if tier == "thorough" else [3000]
+    # the large files exceed 1 MiB also in the quick tier (a size-dependent reader path must be exercised: seed C06-c)
+    big = [100000] if tier == "thorough" else [12000]
+    kbig = 40000 if tier == "thorough" else 6000
     for it in range(100 * K):
         n = int(rng.integers(1, 200)) if it else big[0]
         yield ("tum", {"seed": int(rng.integers(0, 10**9)), "n": n, "kind": KINDS[it % 5], "handle": it % 3 == 1})
     for it in range(60 * K):
-        yield ("kitti", {"seed": int(rng.integers(0, 10**9)), "n": int(rng.integers(1, 120)), "kind": KINDS[it % 5], "handle": it % 3 == 1})
+        yield ("kitti", {"seed": int(rng.integers(0, 10**9)), "n": int(rng.integers(1, 120)) if it else kbig, "kind": KINDS[it % 5],
+                         "handle": it % 3 == 1})
     for it in range(50 * K):
         yield ("result", {"seed": int(rng.integers(0, 10**9)), "n": int(rng.integers(1, 150)), "kind": KINDS[it % 5],
                           "with_traj": it % 2 == 0, "handle": it % 4 == 1})
@@ -235,8 +238,9 @@ def bounded(tier, seed):
                  rule="write -> read of TUM files, KITTI files, result archives (with / without embedded trajectories) and the pandas "
                       "conversion, path and handle variants; values with all 17 significant digits, magnitudes 1e-300..1e+300, "
                       "negative zero, one-ulp neighbours of integers, epoch timestamps with nanosecond fractions, unicode info "
-                      "strings; 1..200 poses plus one file of %s poses; compared bit for bit (uint64 view)" % (
-                          "100000" if tier == "thorough" else "3000"),
+                      "strings; 1..200 poses plus one TUM file of %s poses and one KITTI file of %s poses read through their paths "
+                      "(both larger than 1 MiB); compared bit for bit (uint64 view)" % (
+                          ("100000", "40000") if tier == "thorough" else ("12000", "6000")),
                  bounds={"seed": seed})
 
 
